@@ -168,6 +168,23 @@ def run(ctx):
             deep.append(xml)
         except Exception as ex:
             ctx.extra["deep_documents_error"] = repr(ex)[:200]
+    # directed: element trees that did NOT come from the library's parser - indented (white space text on aggregates), as
+    # xml.etree or an indenting tool hands them over: converting them may be refused, but never touches the caller's tree
+    nind = 0
+    for fn_, payload in list(jobs):
+        if fn_ == "convert" and isinstance(payload, str) and nind < (40 if quick else 400) and rnd.random() < 0.2:
+            try:
+                el = ET.fromstring(payload)
+                ET.indent(el, space=rnd.choice(["  ", "\t", " "]))
+                if rnd.random() < 0.5:
+                    for sub in el.iter():
+                        if len(sub) == 0 and not (sub.text or "").strip():
+                            sub.text = rnd.choice([" ", "\n", None])      # empty aggregates too
+                jobs.append(("convert", ET.tostring(el, encoding="unicode")))
+                nind += 1
+            except Exception:
+                pass
+    ctx.extra["indented_tree_jobs"] = nind
     ctx.extra["deep_documents"] = len(deep)
     for xml in deep:
         jobs.append(("convert", xml))
